@@ -120,6 +120,24 @@ type E2E struct {
 	SetupErr  string    `json:"setup_err,omitempty"`
 }
 
+// HistCase: ONE server whose configured Lookup changes its answers, and
+// whose endpoint table changes, between dials.
+type HistEvent struct {
+	Kind      string        `json:"kind"`                // lookup | registry | dial
+	Table     []LookupEntry `json:"table,omitempty"`     // lookup: the answers from now on (names not listed: (nil, error))
+	Endpoints []string      `json:"endpoints,omitempty"` // registry: hex names connected from now on
+	SNI       string        `json:"sni,omitempty"`       // dial: hex
+	// observed (dial)
+	Decision    string `json:"decision,omitempty"`
+	DecisionArg string `json:"decision_arg,omitempty"`
+	Lookups     int    `json:"lookups"` // calls of the configured Lookup during this dial
+}
+
+type HistCase struct {
+	HasHome bool        `json:"has_home"`
+	Events  []HistEvent `json:"events"`
+}
+
 // RaceCase: goroutines racing on one mail office.
 type RaceCase struct {
 	Dials    int      `json:"dials"`
@@ -152,6 +170,7 @@ type Case struct {
 	Regen  *RegenCase `json:"regen,omitempty"`
 	E2E    *E2E       `json:"e2e,omitempty"`
 	Refuse *RefuseCase `json:"refuse,omitempty"`
+	Hist   *HistCase   `json:"hist,omitempty"`
 	Crash  string     `json:"crash,omitempty"`
 }
 
@@ -918,6 +937,8 @@ type RefuseObs struct {
 	Accepted int64  `json:"accepted"` // connections accepted at any endpoint because of this scenario
 	Bytes    int64  `json:"bytes"`    // bytes read at any endpoint because of this scenario
 	Where    string `json:"where,omitempty"` // which endpoints
+	Lookups     int `json:"lookups"`      // calls of the configured Lookup this connection caused
+	WantLookups int `json:"want_lookups"` // one per sniffed, not rejected hello on a server with a lookup
 	// the scenario as the model sees it
 	SniffOK   bool         `json:"sniff_ok"`            // HelloInfo can succeed on the payload
 	Name      string       `json:"name"`                // hex: the server name HelloInfo reports
@@ -938,6 +959,8 @@ type RefuseCase struct {
 type refuseWorld struct {
 	w        *e2e.World
 	cfg      *sniproxy.ServerConfig
+	raw      func(string) (*sniproxy.Dest, error) // the configured Lookup, uncounted (for the model's view)
+	lookups  int64
 	names    []string
 	mu       sync.Mutex
 	accepted map[string]int64
@@ -1005,7 +1028,11 @@ func (rw *refuseWorld) run(world string, sc refuseScenario) RefuseObs {
 	o := RefuseObs{World: world, Scenario: sc.name, Expect: sc.expect, Endpoints: []string{}}
 	o.SniffOK = sc.sni != "-"
 	o.DialOK = !sc.dialFails
-	o.HasLookup = rw.cfg.Lookup != nil
+	o.HasLookup = rw.raw != nil
+	if o.SniffOK && o.HasLookup && !sniproxy.VerifIsRejectedDomain(sc.sni) {
+		o.WantLookups = 1
+	}
+	l0 := atomic.LoadInt64(&rw.lookups)
 	o.HasHome = rw.cfg.DialHome != nil
 	for _, n := range rw.names {
 		o.Endpoints = append(o.Endpoints, hx16(n))
@@ -1013,8 +1040,8 @@ func (rw *refuseWorld) run(world string, sc refuseScenario) RefuseObs {
 	if o.SniffOK {
 		o.Name = hx16(sc.sni)
 		o.IsIP = net.ParseIP(sc.sni) != nil
-		if rw.cfg.Lookup != nil {
-			d, err := rw.cfg.Lookup(sc.sni)
+		if rw.raw != nil {
+			d, err := rw.raw(sc.sni)
 			e := &LookupEntry{Domain: hx16(sc.sni), Err: err != nil, NoDest: d == nil}
 			if d != nil {
 				e.Name, e.Home, e.Forward = hx16(d.Name), d.Home, hx16(d.ForwardTCP)
@@ -1058,6 +1085,7 @@ func (rw *refuseWorld) run(world string, sc refuseScenario) RefuseObs {
 		time.Sleep(50 * time.Millisecond)
 	}
 	a1, b1, where := rw.totals()
+	o.Lookups = int(atomic.LoadInt64(&rw.lookups) - l0)
 	o.Accepted, o.Bytes = a1-a0, b1-b0
 	if o.Accepted != 0 || o.Bytes != 0 {
 		o.Where = where
@@ -1075,7 +1103,16 @@ func runRefuse(r *hx.Rng, mode string) *RefuseCase {
 	refusedErr := func(d string) error { return fmt.Errorf("domain %q is refused", d) }
 
 	mk := func(cfg *sniproxy.ServerConfig, names []string) (*refuseWorld, error) {
-		rw := &refuseWorld{accepted: map[string]int64{}, bytes: map[string]int64{}, cfg: cfg, names: names}
+		rw := &refuseWorld{accepted: map[string]int64{}, bytes: map[string]int64{}, names: names, raw: cfg.Lookup}
+		counted := *cfg
+		if cfg.Lookup != nil {
+			counted.Lookup = func(domain string) (*sniproxy.Dest, error) {
+				atomic.AddInt64(&rw.lookups, 1)
+				return rw.raw(domain)
+			}
+		}
+		rw.cfg = &counted
+		cfg = &counted
 		var sideDials int32
 		w, err := e2e.NewWorldCfg(mode, cfg, names, rw.handler, func(name string) *websocket.Dialer {
 			if name != "/epside" {
@@ -1241,7 +1278,202 @@ func runRefuse(r *hx.Rng, mode string) *RefuseCase {
 		res.Obs = append(res.Obs, rwC.run("C", sc))
 	}
 	rwC.w.Close()
+
+	// ---- world D: the configured Lookup changes its answers between connections, an endpoint
+	// re-registers; a connection right before and right after every change
+	var tmu sync.Mutex
+	answer := map[string]func() (*sniproxy.Dest, error){}
+	set := func(domain string, f func() (*sniproxy.Dest, error)) {
+		tmu.Lock()
+		answer[domain] = f
+		tmu.Unlock()
+	}
+	to := func(ep string) func() (*sniproxy.Dest, error) {
+		return func() (*sniproxy.Dest, error) { return &sniproxy.Dest{Name: ep}, nil }
+	}
+	refuse := func(domain string) func() (*sniproxy.Dest, error) {
+		return func() (*sniproxy.Dest, error) { return nil, refusedErr(domain) }
+	}
+	cfgD := &sniproxy.ServerConfig{Lookup: func(domain string) (*sniproxy.Dest, error) {
+		tmu.Lock()
+		f := answer[domain]
+		tmu.Unlock()
+		if f == nil {
+			return nil, refusedErr(domain)
+		}
+		return f()
+	}}
+	rwD, err := mk(cfgD, []string{"/ep0", "/ep1"})
+	if err != nil {
+		res.SetupErr = "world D: " + err.Error()
+		return res
+	}
+	moving, other := "moving.example", "steady.example"
+	conn := func(name, expect string) {
+		res.Obs = append(res.Obs, rwD.run("D", refuseScenario{name, tagged(hello(moving), "T-"+strings.ReplaceAll(name, ":", "-")), false, expect, moving, false}))
+	}
+	set(other, to("/ep1"))
+	set(moving, to("/ep0"))
+	conn("change:initial", "/ep0")
+	conn("change:initial-again", "/ep0")
+	set(moving, to("/ep1")) // the site moves
+	conn("change:moved-to-ep1", "/ep1")
+	set(moving, refuse(moving)) // the name is suspended
+	conn("change:now-refused", "refused")
+	conn("change:still-refused", "refused")
+	set(moving, to("/ep0")) // reinstated, at the first endpoint
+	conn("change:reinstated-at-ep0", "/ep0")
+	set(moving, func() (*sniproxy.Dest, error) { return &sniproxy.Dest{Name: "/ep1"}, refusedErr(moving) })
+	conn("change:owner-ep1-but-refused", "refused")
+	set(moving, to("/ghost")) // moved to an endpoint that is not connected
+	conn("change:moved-to-unconnected", "refused")
+	set(moving, to("/ep1"))
+	conn("change:moved-back-to-ep1", "/ep1")
+	// /ep1 re-registers: the name now belongs to the new connection of that endpoint
+	if err := rwD.w.AddEndpoint("/ep1", func(ep string, c net.Conn) { rwD.handler("/ep1#2", c) }); err != nil {
+		res.SetupErr = "world D re-register: " + err.Error()
+	} else {
+		conn("change:endpoint-re-registered", "/ep1#2")
+	}
+	res.Obs = append(res.Obs, rwD.run("D", refuseScenario{"change:other-name-unaffected", tagged(hello(other), "T-other"), false, "/ep1#2", other, false}))
+	rwD.w.Close()
 	return res
+}
+
+// ---- hist stream: one server, the lookup's answers and the registry change between dials ----
+
+func runHist(r *hx.Rng, corpus bool) *HistCase {
+	c := &HistCase{HasHome: r.Bool()}
+	var mu sync.Mutex
+	table := map[string]LookupEntry{}
+	calls := 0
+	cfg := &sniproxy.ServerConfig{Lookup: func(domain string) (*sniproxy.Dest, error) {
+		mu.Lock()
+		defer mu.Unlock()
+		calls++
+		e, ok := table[domain]
+		if !ok {
+			return nil, fmt.Errorf("bad domain %q", domain)
+		}
+		var d *sniproxy.Dest
+		if !e.NoDest {
+			d = &sniproxy.Dest{Name: unhex(e.Name), Home: e.Home, ForwardTCP: unhex(e.Forward)}
+		}
+		var err error
+		if e.Err {
+			err = fmt.Errorf("domain %q is refused", domain)
+		}
+		return d, err
+	}}
+	eps := []string{"/ep0", "/ep1", "/ep2"}
+	srv := sniproxy.NewVerifDialServer(cfg, c.HasHome, true, eps)
+	domains := []string{"d0.example", "d1.example", "d2.example"}
+	setLookup := func(entries map[string]LookupEntry) {
+		mu.Lock()
+		table = map[string]LookupEntry{}
+		ev := HistEvent{Kind: "lookup", Table: []LookupEntry{}}
+		for _, d := range domains {
+			if e, ok := entries[d]; ok {
+				e.Domain = hx16(d)
+				table[d] = e
+				ev.Table = append(ev.Table, e)
+			}
+		}
+		mu.Unlock()
+		c.Events = append(c.Events, ev)
+	}
+	setRegistry := func(names []string) {
+		srv.SetEndpoints(names)
+		ev := HistEvent{Kind: "registry", Endpoints: []string{}}
+		for _, n := range names {
+			ev.Endpoints = append(ev.Endpoints, hx16(n))
+		}
+		c.Events = append(c.Events, ev)
+	}
+	dial := func(d string) {
+		mu.Lock()
+		before := calls
+		mu.Unlock()
+		ev := HistEvent{Kind: "dial", SNI: hx16(d)}
+		res := func() (out string) {
+			defer func() {
+				if e := recover(); e != nil {
+					out = "panic:" + fmt.Sprint(e)
+				}
+			}()
+			return srv.Dial(d, "192.0.2.1:4000")
+		}()
+		ev.Decision = res
+		if i := strings.Index(res, ":"); i >= 0 {
+			ev.Decision, ev.DecisionArg = res[:i], hx16(res[i+1:])
+		}
+		mu.Lock()
+		ev.Lookups = calls - before
+		mu.Unlock()
+		c.Events = append(c.Events, ev)
+	}
+	plain := func(ep string) LookupEntry { return LookupEntry{Name: hx16(ep)} }
+	refused := LookupEntry{Err: true, NoDest: true}
+	setRegistry(eps)
+	if corpus {
+		d := domains[0]
+		setLookup(map[string]LookupEntry{d: plain("/ep0"), domains[1]: plain("/ep2")})
+		dial(d)
+		dial(d)
+		setLookup(map[string]LookupEntry{d: plain("/ep1"), domains[1]: plain("/ep2")}) // moved
+		dial(d)
+		setLookup(map[string]LookupEntry{d: refused, domains[1]: plain("/ep2")}) // refused
+		dial(d)
+		setLookup(map[string]LookupEntry{d: {Err: true, Name: hx16("/ep1")}, domains[1]: plain("/ep2")}) // owner + error
+		dial(d)
+		setLookup(map[string]LookupEntry{d: plain("/ep0"), domains[1]: plain("/ep2")}) // reinstated
+		dial(d)
+		setRegistry([]string{"/ep1", "/ep2"}) // its endpoint disconnects
+		dial(d)
+		setRegistry(eps)
+		dial(d)
+		dial(domains[1])
+		return c
+	}
+	cur := map[string]LookupEntry{}
+	genEntry := func() LookupEntry {
+		switch r.Intn(8) {
+		case 0:
+			return refused
+		case 1:
+			return LookupEntry{Err: true, Name: hx16(eps[r.Intn(3)])}
+		case 2:
+			return LookupEntry{NoDest: true}
+		case 3:
+			return LookupEntry{Home: true, Name: hx16("~")}
+		default:
+			return plain([]string{"/ep0", "/ep1", "/ep2", "/ghost"}[r.Intn(4)])
+		}
+	}
+	for i, n := 0, 8+r.Intn(14); i < n; i++ {
+		switch k := r.Intn(10); {
+		case k < 4: // the answer for one name changes, then a connection for it
+			d := domains[r.Intn(3)]
+			if r.Intn(6) == 0 {
+				delete(cur, d)
+			} else {
+				cur[d] = genEntry()
+			}
+			setLookup(cur)
+			dial(d)
+		case k < 5:
+			var names []string
+			for _, e := range eps {
+				if r.Intn(4) != 0 {
+					names = append(names, e)
+				}
+			}
+			setRegistry(names)
+		default:
+			dial(domains[r.Intn(3)])
+		}
+	}
+	return c
 }
 
 // ---- main ----
@@ -1265,6 +1497,7 @@ func plan(seed uint64, n int, e2eRounds int, only string) []spec {
 		return ss
 	}
 	ss = append(ss, spec{stream: "regen", seed: r.U64()}) // corpus: stale side connection after re-registration
+	ss = append(ss, spec{stream: "hist", seed: r.U64(), a: 1}) // corpus: the lookup's answer changes between dials
 	for _, m := range e2e.Modes { // every refusal path of hostConn, end to end, in each tunnel mode
 		ss = append(ss, spec{stream: "refuse", seed: r.U64(), mode: m})
 	}
@@ -1289,7 +1522,11 @@ func plan(seed uint64, n int, e2eRounds int, only string) []spec {
 		case c < 17:
 			ss = append(ss, spec{stream: "office", seed: r.U64(), a: 10 + r.Intn(60)})
 		case c < 18:
-			ss = append(ss, spec{stream: "conns", seed: r.U64(), a: 5 + r.Intn(40)})
+			if r.Intn(2) == 0 {
+				ss = append(ss, spec{stream: "hist", seed: r.U64()})
+			} else {
+				ss = append(ss, spec{stream: "conns", seed: r.U64(), a: 5 + r.Intn(40)})
+			}
 		case c < 19:
 			if r.Intn(3) == 0 {
 				ss = append(ss, spec{stream: "regen", seed: r.U64()})
@@ -1330,6 +1567,8 @@ func runSpec(i int, s spec) (c Case) {
 		c.E2E = runE2E(r, s.mode, s.a, s.b)
 	case "refuse":
 		c.Refuse = runRefuse(r, s.mode)
+	case "hist":
+		c.Hist = runHist(r, s.a == 1)
 	}
 	return c
 }
